@@ -80,8 +80,14 @@ def queue_ends(ctx: Ctx, rule: str, clsname: str, attr: str, hint: str | None = 
                 takes.append((f, n, "head"))
             elif isinstance(n, ast.Subscript) and isinstance(n.ctx, ast.Store) and _refers(f, n.value, attr):
                 puts.append((f, n, "tail"))
-    ctx.floor(rule, f"put sites of {clsname}.{attr}", len(puts), min_put)
-    ctx.floor(rule, f"take sites of {clsname}.{attr}", len(takes), min_take)
+    if not funcs:
+        raise AnalysisError(f"{rule}: no functions to analyse for {clsname}.{attr}")
+    if len(puts) < min_put or len(takes) < min_take:
+        # the functions exist but the queue operations are gone: the mechanism is missing
+        ctx.ob(rule, funcs[0], f"queue discipline of {attr}: put and positional take sites present", False,
+               detail=f"{clsname}.{attr}: found {len(puts)} put site(s) (need {min_put}) and {len(takes)} positional take site(s) (need {min_take}); "
+                      f"an item that is read without being dequeued from the head, or never enqueued, breaks FIFO delivery")
+        return puts, takes
     put_ends = {e for _, _, e in puts}
     take_ends = {e for _, _, e in takes}
     ok_all = len(put_ends) == 1 and len(take_ends) == 1 and put_ends != take_ends and "middle" not in put_ends
@@ -257,9 +263,9 @@ def checkpoint_typestate(ctx: Ctx, rule: str, f: Func, effects=(), undos=(), reg
                 return "returns without having yielded to the event loop"
             if not chk:
                 return "returns without a cancellation check"
-        elif kind == "raise:CancelledError":
+        elif kind.startswith("raise:"):
             if eff:
-                return "leaves by cancellation after its effect/registration without undoing it"
+                return f"leaves by {kind[6:]} after its effect/registration without undoing it"
         return None
 
     return ctx.paths(rule, f, spec, step, (False, False, False), at_exit, instance=instance or f.qual, native=native,
